@@ -53,6 +53,13 @@ DIRECTED = {
                 "(channel/send (channels-sender ch) 1) (spin 300) (#%gc-collect) (#%gc-collect) (thread-join! t1)",
         "barriers": [{"hold": {"ev": "THREAD_EXIT", "who": "T1"}, "until": {"ev": "ENUM_WAIT", "tgt": "T1"}, "timeout_ms": 5000, "max": 1}],
     },
+    # a thread that stays outside any safepoint for a long time (held at a dispatch point for 500 ms) while
+    # another thread assigns a global: the assignment must wait for it - a stopper that gives up leaves the
+    # thread on the old global table (C15b), and the thread's next define / set! undoes the assignment for all
+    "slow_during_set": {
+        "main": "(define t1 (spawn-native-thread (lambda () (spin 3000) g))) (spin 400) (set! g 5) (list (thread-join! t1) g)",
+        "barriers": [{"hold": {"ev": "DISPATCH", "who": "T1"}, "until": {"ev": "STW_END", "who": "T0"}, "timeout_ms": 500, "skip": 40, "max": 1}],
+    },
     "idle_engine": {
         "main": "(define t1 (spawn-native-thread (lambda () (churn 2000 50)))) 'returned",
         "await_threads": True,
